@@ -70,19 +70,39 @@ def make_interp(ctx: Ctx) -> Interp:
 
 
 class GridTables:
-    def __init__(self, ctx: Ctx, D: int, align_corners: bool):
+    def __init__(self, ctx: Ctx, D: int, align_corners: bool, fractional: bool = False):
         reset_relations()
         self.ctx = ctx
         self.D = D
         self.ac = align_corners
         self.facts = fresh_facts()
         self.it = make_interp(ctx)
-        self.grid, self.atoms = sym_grid(self.it, D, "", align_corners, self.facts)
+        if fractional:
+            # a grid whose internal float size is not integral: downsample() of odd sizes (7, 5, 9) -> _size (3.5, 2.5, 4.5),
+            # reported size() (4, 3, 5). All coordinate maps must be those of the *reported* size, spacing and center.
+            it = self.it
+            s0 = [Rat.atom(f"s{i}") for i in range(D)]
+            c0 = [Rat.atom(f"c{i}") for i in range(D)]
+            for x in s0:
+                self.facts.declare_positive(x)
+            Rm = rotation(D, "")
+            Grid = ctx.prog.cls("deepali.core.grid", "Grid")
+            g0 = it.new(Grid, size=(7, 5, 9)[:D], spacing=STensor.from_flat(s0, [D]), center=STensor.from_flat(c0, [D]),
+                        direction=Rm, align_corners=align_corners)
+            g = it.method(g0, "downsample")
+            n = [int(x) for x in it.method(g, "size")]
+            if any(to_rat(x).equals(to_rat(y)) for x, y in zip(g.attrs["_size"].flat(), n)):
+                raise AnalysisError("fractional-size scenario: downsample() of odd sizes no longer keeps a non-integral internal size")
+            self.grid = g
+            self.atoms = {"n": [Rat.of(k) for k in n], "s": [to_rat(x) for x in it.method(g, "spacing").flat()],
+                          "c": [to_rat(x) for x in it.method(g, "center").flat()], "R": Rm}
+        else:
+            self.grid, self.atoms = sym_grid(self.it, D, "", align_corners, self.facts)
         self.Axes = ctx.prog.cls("deepali.core.grid", "Axes")
         self.ax = {a: self.it.enum(self.Axes, a) for a in AXES}
         self._T: Dict[Tuple[str, str, bool], STensor] = {}
         self._raw: Dict[Tuple[str, str, bool], STensor] = {}
-        self.tagD = f"D={D},align_corners={align_corners}"
+        self.tagD = f"D={D},align_corners={align_corners}" + (",fractional-size" if fractional else "")
 
     def T(self, a: str, b: str, vectors: bool = False) -> STensor:
         k = (a, b, vectors)
@@ -123,6 +143,8 @@ def run_grid_tables(ctx: Ctx, for_c02: bool = False) -> None:
         for ac in (True, False):
             try:
                 _grid_obligations(ctx, D, ac, for_c02)
+                if not for_c02 or D == 2:
+                    _grid_obligations(ctx, D, ac, for_c02, fractional=True)
             except Unsupported as e:
                 raise AnalysisError(f"T1 D={D} align_corners={ac}: {e}")
 
@@ -141,9 +163,9 @@ def _guard(ctx: Ctx, rule: str, inst: str, fi, construct: str, thunk, expect=Non
     return ok
 
 
-def _grid_obligations(ctx: Ctx, D: int, ac: bool, for_c02: bool) -> None:
+def _grid_obligations(ctx: Ctx, D: int, ac: bool, for_c02: bool, fractional: bool = False) -> None:
     prog = ctx.prog
-    gt = GridTables(ctx, D, ac)
+    gt = GridTables(ctx, D, ac, fractional)
     it, g = gt.it, gt.grid
     fT = prog.func("deepali.core.grid", "Grid.transform")
     fV = prog.func("deepali.core.grid", "Grid.transform_vectors")
